@@ -158,7 +158,7 @@ class Unspecified(Exception):
     pass
 
 
-def ref_blt(text):
+def ref_blt(text, oneplus=False):
     """An independent reading of the BLT format (Hill/Wichmann/Woodall + the conventions votelib documents: '#'
     comments, blank lines ignored before the strings, withdrawn lines before the ballots, decimal weights, optional
     title).  Returns the canonical doc, raises Invalid where the text is not a BLT file, Unspecified where the format
@@ -228,6 +228,8 @@ def ref_blt(text):
         if key not in ballots:
             ballots[key] = 0
             order.append(key)
+        if oneplus and nums[0] < 1:
+            raise Invalid('ballot weight below 1 in a file whose weights count whole ballots')
         ballots[key] += Fraction(nums[0])
         seen_ballot = True
     strings = []
@@ -334,10 +336,10 @@ def weight_features(w):
     return out
 
 
-def gen_weight(rng, kinds=('int', 'dec', 'frac')):
+def gen_weight(rng, kinds=('int', 'dec', 'frac'), big=True):
     k = rng.choice(kinds)
     if k == 'int':
-        return {'k': 'int', 'v': str(rng.choice([1, 1, 1, 2, 3, 5, 12, 0, 4000] + BIG_INTS))}
+        return {'k': 'int', 'v': str(rng.choice([1, 1, 1, 2, 3, 5, 12, 0, 4000] + (BIG_INTS if big else [])))}
     if k == 'dec':
         return {'k': 'dec', 'v': rng.choice(['1.5', '0.25', '2', '3.0', '10.125', '1.50', '7', '0.001', '100', '1000000000000.5',
                                              '0', '0.0', '1', '1.4', '0.1234567', '1E+2', '1E-30', '9007199254740993.5',
@@ -347,7 +349,7 @@ def gen_weight(rng, kinds=('int', 'dec', 'frac')):
                                           '333333333334/1000000000000'])}
 
 
-def gen_doc(rng, names=None, max_c=6, person=None, weights=('int', 'dec', 'frac'), title=None, withdrawn=True):
+def gen_doc(rng, names=None, max_c=6, person=None, weights=('int', 'dec', 'frac'), title=None, withdrawn=True, big=True):
     n = rng.randint(1, max_c) if rng.random() < 0.95 else 0
     pool = list(names or (NAMES_PLAIN + NAMES_RICH + NAMES_QUOTE_HASH + NAMES_CLASH))
     if person is None:
@@ -373,7 +375,7 @@ def gen_doc(rng, names=None, max_c=6, person=None, weights=('int', 'dec', 'frac'
         if tuple(idx) in seen:
             continue
         seen.add(tuple(idx))
-        ballots.append([idx, gen_weight(rng, weights)])
+        ballots.append([idx, gen_weight(rng, weights, big)])
     if title is None:
         title = rng.choice([None, None, None] + TITLES_RICH + TITLES_QUOTE_HASH)
     elif title == '-':
